@@ -5,7 +5,7 @@ opcode byte (`opcode->code + (reg & 7)`: push, pop, mov imm32) can only name
 r8..r15 if a REX prefix carrying bit 3 of the same register is emitted first.
 The text emitter prints the full register name, so a missing REX makes listing
 and bytes disagree and (for push/pop) saves the wrong register."""
-from facts import AnalysisBroken, strip_casts, unparse
+from facts import AnalysisBroken, access_path, strip_casts, unparse
 
 
 def switch_arms(sw):
@@ -563,3 +563,172 @@ def check_imm8(db, rep, rule):
     if n < 3:
         raise AnalysisBroken("only %d selections of an imm8 row with a run-time immediate found" % n)
     return n
+
+
+# Intel SDM vol. 2A table 2-? (VEX.pp): the SIMD prefix a legacy encoding would carry <-> the 2-bit pp field
+VEX_PP_OF_LEGACY_PREFIX = {None: 0, 0x66: 1, 0xF3: 2, 0xF2: 3}
+
+
+def _prefix_switches(f):
+    return [sw for sw in f.walk() if sw.k == "SwitchStmt" and (access_path(strip_casts(sw.c[0])) or "").endswith("opcode->prefix")]
+
+
+def check_vex_pp(db, rep, rule):
+    """The opcode table gives every instruction a prefix class.  The legacy encoder turns the class into the mandatory prefix
+    byte (66 / F3 / F2 / none); a VEX encoder must put the architecturally corresponding value into VEX.pp.  VEX.pp shares
+    its byte with VEX.vvvv, so the pp switch of an encoder is the `switch (...->opcode->prefix)` that ORs constants into the
+    variable that also receives get_vex_vvvv().  Decided per class value for every such switch."""
+    tu = db.tu("orcx86insn")
+
+    def arms_of(sw):
+        out = []
+        for labels, stmts in switch_arms(sw):
+            labs = {l for l in labels if l != "default"}
+            pushed, ored = [], {}
+            for st in stmts:
+                for n in st.walk():
+                    if n.k == "BinaryOperator" and n.op == "=" and "codeptr" in unparse(n.c[0]) and strip_casts(n.c[1]) is not None and strip_casts(n.c[1]).v in (0x66, 0xF2, 0xF3):
+                        pushed.append(strip_casts(n.c[1]).v)
+                    if n.k == "CompoundAssignOperator" and n.op == "|=" and strip_casts(n.c[1]).v is not None and strip_casts(n.c[0]).k == "DeclRefExpr":
+                        ored[strip_casts(n.c[0]).name] = ored.get(strip_casts(n.c[0]).name, 0) | strip_casts(n.c[1]).v
+            out.append((labs, pushed, ored))
+        return out
+    leg = None
+    for f in tu.main_functions():
+        for sw in _prefix_switches(f):
+            arms = arms_of(sw)
+            if any(0xF2 in pu or 0xF3 in pu for _, pu, _ in arms):
+                m = {}
+                for labs, pu, _ in arms:
+                    for l in labs:
+                        m[l] = pu[0] if pu else None
+                if leg is not None and leg != m:
+                    raise AnalysisBroken("two legacy prefix switches disagree: %s / %s" % (leg, m))
+                leg = m
+    if leg is None or {v for v in leg.values()} != {None, 0x66, 0xF2, 0xF3}:
+        raise AnalysisBroken("legacy prefix switch not recognised: %s" % leg)
+    n = 0
+    for f in tu.main_functions():
+        vv = {strip_casts(x.c[0]).name for x in f.walk() if x.k == "CompoundAssignOperator" and x.op == "|=" and strip_casts(x.c[0]).k == "DeclRefExpr"
+              and any(c.k == "CallExpr" and c.name == "get_vex_vvvv" for c in x.c[1].walk())}
+        if not vv:
+            continue
+        for sw in _prefix_switches(f):
+            arms = arms_of(sw)
+            target = {v for _, _, o in arms for v in o} & vv
+            if not target:
+                continue
+            var = sorted(target)[0]
+            rep.saw(f)
+            for labs, _, ored in arms:
+                for l in sorted(labs):
+                    if l not in leg:
+                        continue
+                    n += 1
+                    got, want = ored.get(var, 0) & 3, VEX_PP_OF_LEGACY_PREFIX[leg[l]]
+                    rep.check(got == want, rule, "orc/orcx86insn.c::%s" % f.name, "pp:class=%#x" % l,
+                              "prefix class %#x (legacy prefix %s) -> VEX.pp %d" % (l, "%#x" % leg[l] if leg[l] else "none", got),
+                              "%s puts VEX.pp = %d for opcodes of prefix class %#x, whose legacy encoding carries %s (architectural VEX.pp = %d): "
+                              "whenever this form of the prefix is chosen the emitted instruction is a different one from the mnemonic in the listing" %
+                              (f.name, got, l, "the %#x prefix" % leg[l] if leg[l] else "no SIMD prefix", want), line=sw.line)
+    return n
+
+
+def check_vex2_selection(db, rep, rule):
+    """The two-byte VEX prefix has no X and B bits (and this encoder leaves R clear in it), so it may be chosen only when no
+    register that the three-byte form would extend through VEX.R/X/B has bit 3 set.  Which operands those are depends on the
+    instruction type: they are the non-zero arguments of orc_vex_get_rex() in the matching arm of output_3byte_vex_opcode.
+    Decided by finite evaluation: for every VEX-encodable instruction type, operand form and combination of high/low
+    registers, the selector's path condition to output_2byte_vex_opcode is evaluated (exprval) and compared with the arm."""
+    from exprval import NotPure, evaluate, reachable_under
+    tu = db.tu("orcx86insn")
+    f3, sel, cg = tu.fn["output_3byte_vex_opcode"], tu.fn["output_vex_opcode"], tu.fn["orc_vex_insn_codegen"]
+    for g in (f3, sel, cg):
+        rep.saw(g)
+    # VEX-encodable instruction types
+    enc = set()
+    for sw in type_switches(cg):
+        for labels, stmts in switch_arms(sw):
+            if any(c.k == "CallExpr" and c.name == "output_vex_opcode" for st in stmts for c in st.walk()):
+                enc |= {l for l in labels if l != "default"}
+    if len(enc) < 10:
+        raise AnalysisBroken("only %d VEX-encodable instruction types found" % len(enc))
+    xtypes = [db.enum(n) for n in ("ORC_X86_RM_REG", "ORC_X86_RM_MEMOFFSET", "ORC_X86_RM_MEMINDEX")]
+    tnames = {v: k for k, v in tu.enums.items() if k.startswith("ORC_X86_INSN_TYPE_")}
+    # arms of the three-byte form: (outer conditions, T labels, inner xinsn->type labels or None, get_rex call)
+    arms = []
+    for sw in type_switches(f3):
+        outer = []
+        p = sw.parent
+        child = sw
+        while p is not None:
+            if p.k == "IfStmt" and p.c[0] is not None:
+                if len(p.c) > 1 and _contains(p.c[1], child):
+                    outer.append((p.c[0], True))
+                elif len(p.c) > 2 and p.c[2] is not None and _contains(p.c[2], child):
+                    outer.append((p.c[0], False))
+            child, p = p, p.parent
+        for labels, stmts in switch_arms(sw):
+            labs = {l for l in labels if l != "default"} & enc
+            if not labs:
+                continue
+            inner = [x for st in stmts for x in st.walk() if x.k == "SwitchStmt" and (access_path(strip_casts(x.c[0])) or "").endswith("xinsn->type")]
+            if inner:
+                for ilabels, istmts in switch_arms(inner[0]):
+                    calls = [c for st in istmts for c in st.walk() if c.k == "CallExpr" and c.name == "orc_vex_get_rex"]
+                    for c in calls:
+                        arms.append((outer, labs, {l for l in ilabels if l != "default"}, c))
+            else:
+                for c in [c for st in stmts for c in st.walk() if c.k == "CallExpr" and c.name == "orc_vex_get_rex"]:
+                    arms.append((outer, labs, None, c))
+    if len(arms) < 8:
+        raise AnalysisBroken("only %d orc_vex_get_rex arms found in output_3byte_vex_opcode" % len(arms))
+    calls2 = [c for c in sel.calls("output_2byte_vex_opcode")]
+    if not calls2:
+        raise AnalysisBroken("output_vex_opcode no longer calls output_2byte_vex_opcode")
+    LO, HI = 64, 72                      # a register number with bit 3 clear / set
+    n = 0
+    for outer, labs, xl, call in arms:
+        for T in sorted(labs):
+            bad = None
+            cases = 0
+            for X in (sorted(xl) if xl else xtypes):
+                for v0 in (LO, HI):
+                    for v1 in (0, LO, HI):
+                        for vd in (LO, HI):
+                            env = {"xinsn->src[0]": v0, "xinsn->src[1]": v1, "xinsn->dest": vd, "xinsn->type": X, "xinsn->opcode->type": T,
+                                   "xinsn->opcode->flags": 0, "p->is_64bit": 1}
+                            def holds(c, pol, env=env):
+                                try:
+                                    return bool(evaluate(c, env)) == pol
+                                except NotPure:
+                                    return True            # mentions something else (an assertion on the opcode): no constraint here
+                            if not all(holds(c, pol) for c, pol in outer):
+                                continue
+                            try:
+                                need = [unparse(a) for a in call.args()[1:] if evaluate(a, env) & 8]
+                            except NotPure as ex:
+                                raise AnalysisBroken("VEX form selection: cannot evaluate an orc_vex_get_rex argument (%s)" % ex)
+                            two = reachable_under(sel, env, lambda e: e.k == "CallExpr" and e.name == "output_2byte_vex_opcode")
+                            cases += 1
+                            if two and need and bad is None:
+                                bad = (X, v0, v1, vd, need)
+            if not cases:
+                continue
+            n += 1
+            rep.check(bad is None, rule, "orc/orcx86insn.c::output_vex_opcode", "two-byte:%s%s" % (tnames.get(T, T).replace("ORC_X86_INSN_TYPE_", ""), "/2src" if any(not pol and "src[1]" in unparse(c) for c, pol in outer) or any("src[1] != 0" in unparse(c) and pol for c, pol in outer) else ""),
+                      "%d operand combinations: the two-byte VEX form is never selected when a register extended through VEX.R/X/B has bit 3 set" % cases,
+                      "for instruction type %s the selector takes the two-byte VEX form although %s is a register 8..15 that the three-byte form encodes through "
+                      "VEX.R/X/B (operand form %s, src[0]=%s src[1]=%s dest=%s): the two-byte prefix cannot express it, the machine code names the low register "
+                      "while the listing names the high one" % ((tnames.get(T, T), " and ".join(bad[4]), bad[0], bad[1], bad[2], bad[3]) if bad else ("",) * 6),
+                      line=calls2[0].line)
+    return n
+
+
+def _contains(root, node):
+    x = node
+    while x is not None:
+        if x is root:
+            return True
+        x = x.parent
+    return False
